@@ -28,7 +28,11 @@ CHECKS = {
        'to thousands of TLC-generated projects (neighbouring sources, submodule depth 0-2, ../ references, five '
        'target kinds, intermediate_dirs on/off) go through the real configure, a subset through make and make clean, '
        'and TLC decides each recorded outcome: distinct sources -> configure succeeds with distinct outputs inside '
-       'the build directory, extension-only clashes and duplicates -> configure fails, source tree unchanged.',
+       'the build directory, extension-only clashes and duplicates -> configure fails, source tree unchanged. A soak over '
+       'Lifecycle.tla (random walks of configure / edit / build / regenerate / clean / dist / install / uninstall / move, '
+       'real gcc) is validated by stepping the Lifecycle actions: the source tree only ever changes by the user\'s own '
+       'edits, nothing appears outside the build directory and DESTDIR, a build after a build does nothing, products '
+       'exist and run.',
   note='trusted: the contract in ObjNames_Trace.tla, compile_commands.json as the observation of object paths, '
        'TLC; name alphabet is small (one/two-character names, dotted names); literal PAR excluded',
   design='5/C05'),
